@@ -109,7 +109,7 @@ def sh(cmd, cwd=None, timeout=3600, env=None):
 
 def coq_build():
     """full .vo build of the development through coq_makefile/make; lock-protected, incremental"""
-    lock = os.path.join(CACHE, 'coq.lock')
+    lock = os.path.join(COQ, '.build.lock')     # beside the .vo files it protects (the cache directory may be private)
     os.makedirs(CACHE, exist_ok=True)
     with open(lock, 'w') as lf:
         fcntl.flock(lf, fcntl.LOCK_EX)
